@@ -250,6 +250,12 @@ impl<T: ArrayValue> Array<T> {
             return;
         }
         if let Some(Some(keys)) = (depth == 0).then(|| self.meta.take_map_keys()) {
+            if keys.is_fixed() {
+                // The keys of a fixed map belong to an axis that sorting the rows does not move
+                self.sort_up();
+                self.meta.map_keys = Some(keys);
+                return;
+            }
             let keys = keys.normalized();
             let rise = self.rise_indices();
             self.sort_up();
@@ -295,6 +301,12 @@ impl<T: ArrayValue> Array<T> {
             return;
         }
         if let Some(Some(keys)) = (depth == 0).then(|| self.meta.take_map_keys()) {
+            if keys.is_fixed() {
+                // The keys of a fixed map belong to an axis that sorting the rows does not move
+                self.sort_down();
+                self.meta.map_keys = Some(keys);
+                return;
+            }
             let keys = keys.normalized();
             let fall = self.fall_indices();
             self.sort_down();
